@@ -279,8 +279,9 @@ def run(ctx, selftest=False):
         return
 
     parts = vlib.split_traces(t1) + vlib.split_traces(t2)
-    distinct = {json.dumps([{k: v for k, v in r.items() if k != 'seq'} for r in recs], sort_keys=True) for _, recs in parts}
-    nt = sum(1 for _, recs in parts if nontrivial(recs))
+    def canon(recs):
+        return json.dumps([{k: v for k, v in r.items() if k != 'seq'} for r in recs], sort_keys=True)
+    distinct_nt = {canon(recs) for _, recs in parts if nontrivial(recs)}
     feat = {}
     for _, recs in parts:
         for x in features(recs):
@@ -294,7 +295,7 @@ def run(ctx, selftest=False):
     if not feat.get('coalesced'):
         ctx.notes.append('no trace showed a coalesced lookup: the implementation under test never coalesces')
     ctx.sample({'trace_excerpt': parts[-1][1][:10]})
-    ctx.cov.update({'evaluations': len(parts), 'distinct_nontrivial': min(nt, len(distinct)),
+    ctx.cov.update({'evaluations': len(parts), 'distinct_nontrivial': len(distinct_nt),
                     'events_validated': stats['events'] + stats2['events'], 'trace_features': feat})
 
     # 4. binding self-test
